@@ -103,6 +103,9 @@ func hostileGroups(full bool) []hgroup {
 		default:
 			g.allClaims = n < 3
 		}
+		if full {
+			g.allClaims = true
+		}
 		gs = append(gs, g)
 	}
 	for _, cmd := range allCmds {
@@ -129,7 +132,7 @@ func hostileGroups(full bool) []hgroup {
 					nframe++
 					fr := rw.Frame(uint32(wire.MainNet), cmd, b)
 					gs = append(gs, hgroup{dec: "frame", c: c, kind: "seed", seed: fr, spans: frameSpans(len(b)), cmd: cmd, label: dom[i].label})
-					gs = append(gs, hgroup{dec: "frame", c: c, kind: "reframe", seed: b, spans: sp, cmd: cmd, label: dom[i].label, allClaims: nframe == 2})
+					gs = append(gs, hgroup{dec: "frame", c: c, kind: "reframe", seed: b, spans: sp, cmd: cmd, label: dom[i].label, allClaims: full || nframe == 2})
 				}
 				if c.Pver == 0 {
 					switch cmd {
